@@ -202,7 +202,7 @@ func loadProgram(cfg *RunConfig) (*Program, *ssa.Function, []string, error) {
 			modPath = p.Module.Path
 		}
 	}
-	prog := &Program{ssa: sprog, fset: sprog.Fset, pkgs: map[string]*ssa.Package{}, infos: map[*ssa.Function]*fnInfo{}, modPath: modPath, stubs: map[string]*ssa.Function{}}
+	prog := &Program{ssa: sprog, fset: sprog.Fset, pkgs: map[string]*ssa.Package{}, infos: map[*ssa.Function]*fnInfo{}, merges: map[*ssa.BasicBlock]*mergeInfo{}, modPath: modPath, stubs: map[string]*ssa.Function{}}
 	prog.initOK = initAllowed(modPath)
 	for _, p := range sprog.AllPackages() {
 		prog.pkgs[p.Pkg.Path()] = p
@@ -434,7 +434,8 @@ func classify(msg string) string {
 }
 
 func main() {
-	debug.SetGCPercent(400)
+	debug.SetGCPercent(200)
+	debug.SetMemoryLimit(20 << 30)
 	if len(os.Args) < 2 {
 		fmt.Fprintln(os.Stderr, "usage: gosym run|check|selftest ...")
 		os.Exit(2)
@@ -493,6 +494,7 @@ func cmdRun(args []string) {
 	fs.StringVar(&cfg.DumpUnknown, "dumpunknown", "", "file prefix for standalone dumps of queries answered unknown")
 	out := fs.String("out", "", "result file")
 	prof := fs.String("cpuprofile", "", "")
+	memprof := fs.String("memprofile", "", "")
 	solver := fs.String("solver", "z3-new", "")
 	params := paramFlags(cfg.Params)
 	fs.Var(params, "param", "k=v harness parameter")
@@ -512,6 +514,11 @@ func cmdRun(args []string) {
 	res, err := runHarness(cfg)
 	if *prof != "" {
 		pprof.StopCPUProfile()
+	}
+	if *memprof != "" {
+		f, _ := os.Create(*memprof)
+		pprof.WriteHeapProfile(f)
+		f.Close()
 	}
 	if err != nil {
 		fmt.Fprintln(os.Stderr, "error:", err)
